@@ -193,7 +193,8 @@ class MCNP_Lexer(Lexer):
         self.lineno += t.value.count("\n")
         return t
 
-    @_(r"\d{4,6}\.(\d{2}[a-z]|\d{3}[a-z]{2})")
+    # the guard keeps numbers with an exponent (58695.87e0, 1234.56E-3) out: their e starts an exponent
+    @_(r"\d{4,6}\.(\d{2}(?!e[+\-]?\d)[a-z]|\d{3}[a-z]{2})")
     def ZAID(self, t):
         """
         A ZAID isotope definition in the MCNP format.
